@@ -117,8 +117,11 @@ def rule_loopload(ctx, R):
         ma_, mb_ = re.search(r'\[(.*)\]', pa), re.search(r'\[(.*)\]', pb)
         ra = sorted(ma_.group(1).replace(' ', '').split('+')) if ma_ and pa.startswith('lea@') else None
         rb = sorted(mb_.group(1).replace(' ', '').split('+')) if mb_ and pb.startswith('lea@') else None
-        R.check(ra is not None and rb is not None and 'rsi' in ra and 'rsi' in rb and ra != rb and len(ra) == 2 and len(rb) == 2, 'addresses', src,
-                expected='scratchpad base (rsi) + one register each, two different registers', found='%s / %s' % (pa, pb))
+        if ra is None or rb is None:
+            R.note('X86-LOOPLOAD: the two scratchpad addresses are not formed by `lea`; their composition is not decided (%s / %s)' % (pa, pb))
+        else:
+            R.check('rsi' in ra and 'rsi' in rb and ra != rb and len(ra) == 2 and len(rb) == 2, 'addresses', src,
+                    expected='scratchpad base (rsi) + one register each, two different registers', found='%s / %s' % (pa, pb))
     masked = {}
     for off, mn, ops, raw in ins:
         p = [x.strip() for x in ops.split(',')] if ops else []
